@@ -121,7 +121,7 @@ class IndexClient(PathClient):
                 self.defs[n.targets[0].id] = n.value
             elif isinstance(n, ast.AugAssign) and isinstance(n.target, ast.Name):
                 counts[n.target.id] = counts.get(n.target.id, 0) + 2
-        self.defs = {k: v for k, v in self.defs.items() if counts.get(k) == 1}
+        self.defs = {k: v for k, v in self.defs.items() if counts.get(k) == 1 and k not in f.rebound_by_nested()}
         # only conditions that talk about an indexed receiver are tracked (keeps the state set small)
         recvs = set()
         for x in f.body_nodes():
